@@ -147,14 +147,15 @@ func rulePending(c *Ctx) {
 				problem = "an event is emitted before the pending delta is consumed"
 				break
 			}
-			switch {
-			case s.delta == ssa.Value(get):
-				usesPending = true
-			default:
-				if k, ok := constInt(s.delta); ok && k == 0 {
+			for _, leaf := range phiLeaves(s.delta) {
+				if leaf == ssa.Value(get) {
+					usesPending = true
 					continue
 				}
-				if _, ok := isCallTo(s.delta, "midix.MIDIWriter.newTicks"); ok {
+				if k, ok := constInt(leaf); ok && k == 0 {
+					continue
+				}
+				if _, ok := isCallTo(leaf, "midix.MIDIWriter.newTicks"); ok {
 					continue
 				}
 				problem = "an op's delta is neither the pending delta, 0 nor newTicks(value)"
@@ -611,20 +612,48 @@ func ruleNote(c *Ctx) {
 				problems = append(problems, label+"'s track argument is not the loop index (on and off of one key could land on different tracks)")
 			}
 			// delta: first op (index == 0 branch) carries the time, others 0
-			isFirstVal := false
-			if call, ok := s.delta.(*ssa.Call); ok && calleeName(&call.Call) == firstValue["midix."+label] {
-				isFirstVal = true
-			}
-			k, isConst := constInt(s.delta)
-			side, guarded := c.branchSide(s.call.Block(), func(v ssa.Value) bool {
+			isIdxZero := func(v ssa.Value) bool {
 				b, ok := v.(*ssa.BinOp)
 				if !ok || b.Op != token.EQL {
 					return false
 				}
 				z, ok := constInt(b.Y)
 				return ok && z == 0 && b.X == l.index
-			})
+			}
+			isFirst := func(v ssa.Value) bool {
+				call, ok := v.(*ssa.Call)
+				return ok && calleeName(&call.Call) == firstValue["midix."+label]
+			}
+			isFirstVal := isFirst(s.delta)
+			k, isConst := constInt(s.delta)
+			side, guarded := c.branchSide(s.call.Block(), isIdxZero)
+			// one call with a conditional delta: phi(time value on the index==0 side, 0 otherwise)
+			condDelta := false
+			if phi, ok := s.delta.(*ssa.Phi); ok && len(phi.Edges) == 2 {
+				okAll := true
+				for i, ed := range phi.Edges {
+					pred := phi.Block().Preds[i]
+					onZero := false
+					if sd, g := c.branchSide(pred, isIdxZero); g && sd {
+						onZero = true
+					} else if iff, ok := pred.Instrs[len(pred.Instrs)-1].(*ssa.If); ok && isIdxZero(iff.Cond) {
+						onZero = pred.Succs[0] == phi.Block() // direct edge from the test: true side
+						if pred.Succs[1] == phi.Block() {
+							onZero = false
+						}
+					}
+					z, isZ := constInt(ed)
+					switch {
+					case onZero && isFirst(ed):
+					case !onZero && isZ && z == 0:
+					default:
+						okAll = false
+					}
+				}
+				condDelta = okAll
+			}
 			switch {
+			case condDelta:
 			case isFirstVal && guarded && side:
 			case isConst && k == 0 && guarded && !side:
 			case isFirstVal && !guarded:
@@ -1309,6 +1338,13 @@ func ruleTrackCount(c *Ctx) {
 			}
 			if getCall.Common().Args[1] != l.index {
 				problem = "Get is not called with the loop index"
+			}
+		}
+		// every iteration serialises its track: exactly one SMF.Add on every path through the loop body
+		if l != nil && problem == "" {
+			mn, mx := pathsSiteCount(l, map[*ssa.BasicBlock]int{addCall.Block(): 1})
+			if mn != 1 || mx != 1 {
+				problem = fmt.Sprintf("some iterations skip SMF.Add (between %d and %d calls per track): the file has fewer track chunks than --track asked for", mn, mx)
 			}
 		}
 		// error of Add checked
